@@ -61,49 +61,7 @@ func runC12(c *an.Ctx) {
 	// ---------------------------------------------------------------- C12.recover
 	if rec := c.Fn("C12.recover", "(*Runtime).recover"); rec != nil {
 		// roles: the variables holding the recovered value — defined by recover(), or bound by a type switch over one
-		recVars := map[types.Object]bool{}
-		for changed := true; changed; {
-			changed = false
-			an.InspectOwn(rec, func(n ast.Node) bool {
-				switch x := n.(type) {
-				case *ast.AssignStmt:
-					if len(x.Lhs) == 1 && len(x.Rhs) == 1 {
-						if id, ok := x.Lhs[0].(*ast.Ident); ok {
-							r := an.Unparen(x.Rhs[0])
-							isRec := an.CalleeName(info, callOf(r)) == "builtin.recover"
-							if rid, ok := r.(*ast.Ident); ok && recVars[an.ObjOf(info, rid)] {
-								isRec = true
-							}
-							if o := an.ObjOf(info, id); isRec && o != nil && !recVars[o] {
-								recVars[o] = true
-								changed = true
-							}
-						}
-					}
-				case *ast.TypeSwitchStmt:
-					var tag ast.Expr
-					switch a := x.Assign.(type) {
-					case *ast.AssignStmt:
-						if ta, ok := an.Unparen(a.Rhs[0]).(*ast.TypeAssertExpr); ok {
-							tag = ta.X
-						}
-					case *ast.ExprStmt:
-						if ta, ok := an.Unparen(a.X).(*ast.TypeAssertExpr); ok {
-							tag = ta.X
-						}
-					}
-					if id, ok := an.Unparen(tag).(*ast.Ident); ok && recVars[an.ObjOf(info, id)] {
-						for _, cc := range x.Body.List {
-							if o := info.Implicits[cc]; o != nil && !recVars[o] {
-								recVars[o] = true
-								changed = true
-							}
-						}
-					}
-				}
-				return true
-			})
-		}
+		recVars, nilArms := recoveredVars(p, rec)
 		isRecovered := func(e ast.Expr) bool {
 			e = an.Unparen(e)
 			if ta, ok := e.(*ast.TypeAssertExpr); ok {
@@ -115,6 +73,12 @@ func runC12(c *an.Ctx) {
 		otherPanic := token.NoPos
 		hooks := an.Hooks{
 			Stmt: func(x *an.Explorer, n ast.Node, st *an.State) {
+				// a statement of an arm (other than `case nil`) of a type switch over the recovered value: something was recovered
+				for _, arm := range nilArms.other {
+					if arm.Pos() <= n.Pos() && n.End() <= arm.End() {
+						st.Set("rec", "1")
+					}
+				}
 				// *err, ok = recovered.(error)
 				if as, ok := n.(*ast.AssignStmt); ok && len(as.Rhs) == 1 && len(as.Lhs) >= 1 {
 					if star, ok := an.Unparen(as.Lhs[0]).(*ast.StarExpr); ok && an.Norm(rec, star.X) == "$p0" && isRecovered(as.Rhs[0]) {
@@ -203,6 +167,9 @@ func runC12(c *an.Ctx) {
 				if d != nil && an.CalleeName(finfo, callOf(d)) == "builtin.recover" {
 					reraise = true
 				}
+			}
+			if rv, _ := recoveredVars(p, s.fn); rv[an.ObjOf(finfo, id)] {
+				reraise = true // (also the binding of a type switch over the recovered value)
 			}
 			if reraise {
 				continue
@@ -751,4 +718,77 @@ func c12report(c *an.Ctx, eval, parse map[*an.Fn]bool) {
 		}
 	}
 	c.Expect("C12.report", "Type() of evaluated values inside error reports", n, 3)
+}
+
+type recoverArms struct{ other []*ast.CaseClause }
+
+// recoveredVars: the variables of fn that hold the value recover() returned — assigned from recover() (or
+// from such a variable), or bound by a type switch over recover() itself or over such a variable — and
+// the arms of such type switches that stand for "something was recovered" (every arm but `case nil`).
+func recoveredVars(p *an.Prog, fn *an.Fn) (map[types.Object]bool, recoverArms) {
+	info := fn.Info()
+	recVars := map[types.Object]bool{}
+	var arms recoverArms
+	seenArm := map[*ast.CaseClause]bool{}
+	for changed := true; changed; {
+		changed = false
+		an.InspectOwn(fn, func(n ast.Node) bool {
+			switch x := n.(type) {
+			case *ast.AssignStmt:
+				if len(x.Lhs) == 1 && len(x.Rhs) == 1 {
+					if id, ok := x.Lhs[0].(*ast.Ident); ok {
+						r := an.Unparen(x.Rhs[0])
+						isRec := an.CalleeName(info, callOf(r)) == "builtin.recover"
+						if rid, ok := r.(*ast.Ident); ok && recVars[an.ObjOf(info, rid)] {
+							isRec = true
+						}
+						if o := an.ObjOf(info, id); isRec && o != nil && !recVars[o] {
+							recVars[o] = true
+							changed = true
+						}
+					}
+				}
+			case *ast.TypeSwitchStmt:
+				var tag ast.Expr
+				switch a := x.Assign.(type) {
+				case *ast.AssignStmt:
+					if ta, ok := an.Unparen(a.Rhs[0]).(*ast.TypeAssertExpr); ok {
+						tag = ta.X
+					}
+				case *ast.ExprStmt:
+					if ta, ok := an.Unparen(a.X).(*ast.TypeAssertExpr); ok {
+						tag = ta.X
+					}
+				}
+				over := false
+				if id, ok := an.Unparen(tag).(*ast.Ident); ok && recVars[an.ObjOf(info, id)] {
+					over = true
+				}
+				if tag != nil && an.CalleeName(info, callOf(an.Unparen(tag))) == "builtin.recover" {
+					over = true
+				}
+				if over {
+					for _, cl := range x.Body.List {
+						cc := cl.(*ast.CaseClause)
+						if o := info.Implicits[cc]; o != nil && !recVars[o] {
+							recVars[o] = true
+							changed = true
+						}
+						isNil := false
+						for _, e := range cc.List {
+							if tv, ok := info.Types[e]; ok && tv.IsNil() {
+								isNil = true
+							}
+						}
+						if !isNil && !seenArm[cc] {
+							seenArm[cc] = true
+							arms.other = append(arms.other, cc)
+						}
+					}
+				}
+			}
+			return true
+		})
+	}
+	return recVars, arms
 }
